@@ -13,7 +13,7 @@ PID = "C19"
 # few distinct literals, many of them suppressed or used as separators: the same literal text plays several roles in
 # one grammar (value, suppressed match, separator), which a memoizing parser must keep apart
 OPTS = dict(max_rules=4, depth=3, comment=0.3, modifiers=0.5, unord=0.1, preds=0.12, sup=0.25, eol=0.2, sep=0.4,
-            ws_mod=0.2, lits=["a", "b", ",", ";", "+", "if"])
+            ws_mod=0.2, lits=["a", "b", ",", ";", "+", "if"], tworole=0.3)
 
 
 def with_memo(cases, memo):
@@ -46,6 +46,43 @@ def differential(rep, cases, info_on, info_off):
     return n
 
 
+def chain_cases(rng, n, per):
+    """Grammars whose rules form a chain main -> mid -> leaf of grammar files (cfg split3): the rules of the
+    indirectly imported file are reached through the middle one. Several inputs per metamodel, so results
+    memoized for one input would be visible in the next."""
+    gg = G.GrammarGen(rng, dict(OPTS, comment=0.0, max_rules=4))
+    cases, tries = [], 0
+    while len({id(c["g"]) for c in cases}) < n and tries < 40 * n:
+        tries += 1
+        g = gg.grammar()
+        rules = g["rules"]
+        if len(rules) < 3:
+            continue
+        names = [r["name"] for r in rules]
+        # redirect references so that every rule refers to the next file only
+        for i, r in enumerate(rules[:2]):
+            allowed = [names[1]] if i == 0 else names[2:]
+            for e in G.walk_all(r["body"]):
+                if e["k"] == "ref" and e["name"] in names and e["name"] not in allowed and e["name"] != r["name"]:
+                    e["name"] = rng.choice(allowed)
+        if not G.well_formed(g) or D.Built.split3(g) is None:
+            continue
+        reach = any(e["k"] == "ref" and e["name"] == names[1] for e in G.walk_all(rules[0]["body"])) and \
+            any(e["k"] == "ref" and e["name"] in names[2:] for e in G.walk_all(rules[1]["body"]))
+        if not reach:
+            continue
+        g = G.number(g)
+        cfg = D.default_cfg(skipws=rng.random() < 0.8, split3=True)
+        sg = G.SentenceGen(rng, g)
+        for k in range(per):
+            toks = sg.sentence()
+            s = G.join(rng, toks, False)
+            if k % 3 == 2:
+                s = G.mutate(rng, s, toks)
+            cases.append(dict(id=len(cases), g=g, cfg=cfg, s=G.codes(s)))
+    return cases
+
+
 def run(rep):
     rng = random.Random(rep.seed)
     quick = rep.tier == "quick"
@@ -62,6 +99,9 @@ def run(rep):
     rep.exhaustive = True
     n, per = (100, 8) if quick else (1200, 10)
     base = c01.random_cases(rng, n, per, OPTS)
+    for c in chain_cases(rng, 25 if quick else 250, 8):
+        c["id"] = len(base)
+        base.append(c)
     on, off = with_memo(base, True), with_memo(base, False)
     info_on, st1 = P.judge_cases(rep, PID, on, label="random memo=on", compare=lambda o: o)
     info_off, st2 = P.judge_cases(rep, PID, off, label="random memo=off", compare=lambda o: o)
